@@ -136,6 +136,13 @@ def r_case(case, common, out):
                 bump(out, "C12.R.shuffle:subset==full[subset]", sig, rule="requested subsets of output partitions against the full shuffle")
                 if sorted(got.v.tolist()) != sorted(exp.v.tolist()):
                     viol(out, "C12.R.shuffle:subset-differs", sig, f"subset holds v={sorted(got.v.tolist())[:8]}.. ({len(got)} rows), full shuffle's partitions hold {len(exp)} rows", replay)
+                # the requested subset and its complement, as two selections of the same shuffle in ONE graph
+                rest = [p for p in range(sh.npartitions) if p not in set(subset)]
+                if rest:
+                    both = dx.concat([sh.partitions[list(subset)], sh.partitions[rest]]).compute()
+                    bump(out, "C12.R.shuffle:two-selections-one-graph", sig, rule="a subset and its complement concatenated in one graph hold every row once")
+                    if sorted(both.v.tolist()) != sorted(pdf.v.tolist()):
+                        viol(out, "C12.R.shuffle:two-selections-one-graph-differs", sig, f"{len(both)} rows, expected {len(pdf)}", replay)
                 return
         except Exception as ex:
             viol(out, "C12.R.shuffle:raises", sig, f"{type(ex).__name__}: {str(ex)[:200]}", replay)
@@ -210,9 +217,32 @@ def x_case(case, common, out):
             bump(out, "C12.R.cross:hash-join-row-count", sig, rule="hash join int-keyed x float-keyed frame against pandas")
             if len(got) != len(exp):
                 viol(out, "C12.R.cross:hash-join-loses-rows", sig, f"{len(got)} rows, pandas {len(exp)}", replay)
-            mi = a.merge(variants["int-index-by-name"], left_on="k", right_on="k", how=how, broadcast=False) if False else None
         except Exception as ex:
             viol(out, "C12.R.cross:raises", f"{sig}|merge", f"{type(ex).__name__}: {str(ex)[:160]}", replay)
+        # two-column key, the two frames store the key columns in a different column order
+        try:
+            two = pdf[["ki", "ks", "v"]].rename(columns={"ki": "k1", "ks": "k2"})
+            fa = dx.from_pandas(two[["k1", "k2", "v"]], npartitions=nin1, sort=False)
+            fb = dx.from_pandas(two[["v", "k2", "k1"]].assign(v=two.v + 1000), npartitions=nin2, sort=False)
+            pa2 = [p.compute() for p in fa.shuffle(["k1", "k2"], npartitions=nout).to_delayed()]
+            pb2 = [p.compute() for p in fb.shuffle(["k1", "k2"], npartitions=nout).to_delayed()]
+            bump(out, "C12.R.cross:two-column-key-same-partition-across-column-orders", sig, rule="key (k1, k2) in frames storing the columns as k1,k2,v and v,k2,k1")
+            place2 = {}
+            for pi, p in enumerate(pa2):
+                for k in zip(p.k1.tolist(), p.k2.tolist()):
+                    place2[k] = pi
+            for pi, p in enumerate(pb2):
+                bad = [k for k in zip(p.k1.tolist(), p.k2.tolist()) if place2.get(k, pi) != pi]
+                if bad:
+                    viol(out, "C12.R.cross:key-placed-differently", f"{sig}|two-column-key|column-order", f"key {bad[0]!r}: partition {place2[bad[0]]} in the (k1,k2,v) frame, {pi} in the (v,k2,k1) frame", replay)
+                    break
+            m2 = fa.merge(fb, on=["k1", "k2"], how=how, broadcast=False).compute()
+            e2 = two[["k1", "k2", "v"]].merge(two[["v", "k2", "k1"]].assign(v=two.v + 1000), on=["k1", "k2"], how=how)
+            bump(out, "C12.R.cross:hash-join-row-count", f"{sig}|two-column-key", rule="hash join int-keyed x float-keyed frame against pandas")
+            if len(m2) != len(e2):
+                viol(out, "C12.R.cross:hash-join-loses-rows", f"{sig}|two-column-key", f"{len(m2)} rows, pandas {len(e2)}", replay)
+        except Exception as ex:
+            viol(out, "C12.R.cross:raises", f"{sig}|two-column-key", f"{type(ex).__name__}: {str(ex)[:160]}", replay)
 
 
 def replay_r(case):
@@ -260,6 +290,8 @@ def run(run):
         grid.append((on, 5, 9, "tasks", 2, False, (0, 2, 4, 6)))
         grid.append((on, 7, 9, "tasks", 2, False, (1, 2, 3, 4, 5, 8)))
         grid.append((on, 3, 4, "tasks", None, False, (3, 1)))
+        if on in ("ki", "ks", ("ki", "ks"), "__index__"):
+            grid.append((on, 4, 6, "disk", None, False, (3, 4, 5)))
     run_cases(run, "vf.props.C12", "r_case", grid, {}, chunk=3)
     xs = [(a, b, n, how) for (a, b, n) in ((3, 4, 5), (2, 6, 6), (5, 5, 3)) for how in ("inner", "left")]
     run_cases(run, "vf.props.C12", "x_case", xs, {}, chunk=1)
